@@ -175,6 +175,11 @@ func (c *cdbdriver) GetLocationByMap(ipnet *net.IPNet, mapID []byte, context Con
 		if mask > maxMask {
 			continue
 		}
+		if isv4 && mask < 96 {
+			// the combined list also holds IPv6 prefix lengths; an IPv4 client
+			// (::ffff:a.b.c.d) can only match prefixes inside the IPv4-mapped block
+			continue
+		}
 		// Finish creating the search key:
 		// "{key_prefix}{ipv6_subnet_bitmap}"
 		currentCIDRMask := cachedCIDRMask[mask]
